@@ -159,6 +159,18 @@ static inline StringDictionary *load_own(int k, std::istream &in, uint opt) {
 }
 static inline str save_img(StringDictionary *d) { std::ostringstream o; d->save(o); return o.str(); }
 
+// read-only stream buffer over caller-owned memory (no copy; supports the seekg(0) the generic loader performs)
+struct MemBuf : std::streambuf {
+  MemBuf(const char *b, size_t n) { char *p = const_cast<char *>(b); setg(p, p, p + n); }
+  pos_type seekoff(off_type off, std::ios_base::seekdir dir, std::ios_base::openmode) override {
+    char *np = dir == std::ios_base::beg ? eback() + off : dir == std::ios_base::cur ? gptr() + off : egptr() + off;
+    if (np < eback() || np > egptr()) return pos_type(off_type(-1));
+    setg(eback(), np, egptr());
+    return pos_type(np - eback());
+  }
+  pos_type seekpos(pos_type pos, std::ios_base::openmode m) override { return seekoff(off_type(pos), std::ios_base::beg, m); }
+};
+
 // ---------------------------------------------------------------- ASan capture
 extern "C" {
 void __asan_set_error_report_callback(void (*)(const char *));
